@@ -164,9 +164,11 @@ impl Evaluator {
                         if self.pure_metamethods {
                             left_side_effect || self.has_side_effects(binary.right())
                         } else {
+                            // `left_side_effect` is already known: asking again doubles the work
+                            // at every level of a chain like `1 + 1 + 1 + ...`
                             self.maybe_metatable(&left_value)
                                 || self.maybe_metatable(&self.evaluate(right))
-                                || self.has_side_effects(left)
+                                || left_side_effect
                                 || self.has_side_effects(right)
                         }
                     }
